@@ -83,6 +83,11 @@ type replayCase struct {
 	File    string `json:"file,omitempty"`
 	Content string `json:"content,omitempty"` // hex
 	Len     int    `json:"len,omitempty"`
+	// fault: a start / ticket checkpoint with every file write limited to Limit bytes
+	Fault string            `json:"fault,omitempty"` // restart | first | tickets
+	Args  map[string]string `json:"args,omitempty"`
+	Limit uint64            `json:"limit,omitempty"`
+	Seed  uint64            `json:"fault_seed,omitempty"`
 }
 
 // ---------------------------------------------------------------------------------------------
@@ -199,26 +204,10 @@ func parseDirText(s string) (map[string][]byte, error) {
 	return m, nil
 }
 
-func stripComments(b []byte) []byte {
-	var out []byte
-	for _, ln := range bytes.SplitAfter(b, []byte("\n")) {
-		t := bytes.TrimRight(ln, "\n")
-		if len(t) == 0 || t[0] == '#' {
-			continue
-		}
-		out = append(out, ln...)
-	}
-	return out
-}
-
-// canonOps: the traced ops as text; the comment block of the bridge-line file is not part of
-// the model (only the bridge line is), so it is dropped for the comparison.
+// canonOps: the traced ops as text.
 func canonOps(ops []sysOp) string {
 	parts := make([]string, 0, len(ops))
 	for _, o := range ops {
-		if o.Kind == "W" && strings.HasPrefix(o.Name, bridgeFile) {
-			o.Data = stripComments(o.Data)
-		}
 		parts = append(parts, o.canon())
 	}
 	return strings.Join(parts, " ")
@@ -244,6 +233,8 @@ type checker struct {
 	workers int
 	// the discipline the traced starts were seen to follow (evidence)
 	disc map[string]int
+	// the comment block the code puts above the bridge line (read from a file it wrote)
+	bridgePrefix []byte
 }
 
 func (c *checker) mkdir() string {
@@ -264,7 +255,7 @@ func (c *checker) call(format string, a ...interface{}) string {
 
 // loadModel puts a directory, the key table and a traced op list into the driver.
 func (c *checker) loadModel(files map[string][]byte, privs []string, ops []sysOp) {
-	c.call("fs.reset %d %d", modelFixed, time.Now().Unix())
+	c.call("fs.reset %d %d %s", modelFixed, time.Now().Unix(), vlib.Hex(c.bridgePrefix))
 	names := make([]string, 0, len(files))
 	for n := range files {
 		names = append(names, n)
@@ -436,6 +427,7 @@ func (c *checker) serverScenario(sc scenario, only *replayCase, rng *vlib.Rng) {
 			want := *cur
 			if hasIAT {
 				want.IAT = iatArg
+				c.r.Count("iat_override_transition", cur.IAT+"->"+iatArg)
 			}
 			if !rep.OK {
 				c.r.Violate("restart-fails-with-persisted-identity", "impl-oracle",
@@ -445,7 +437,7 @@ func (c *checker) serverScenario(sc scenario, only *replayCase, rng *vlib.Rng) {
 					fmt.Sprintf("start %d presents cert=%s, the persisted identity is cert=%s", si, rep.Cert, want.Cert), rcase)
 			} else if rep.IAT != want.IAT {
 				c.r.Violate("iat-mode-not-kept", "impl-oracle",
-					fmt.Sprintf("start %d presents iat-mode=%s, expected %s (last override / persisted value)", si, rep.IAT, want.IAT), rcase)
+					fmt.Sprintf("start %d (args %v; the directory held iat-mode=%s) presents iat-mode=%s, expected %s (the override if given, else the persisted value)", si, st.Args, cur.IAT, rep.IAT, want.IAT), rcase)
 			}
 			if rep.OK {
 				cur = &presented{rep.Cert, rep.IAT}
@@ -1163,6 +1155,276 @@ func mutateCert(rng *vlib.Rng, cert string) string {
 }
 
 // ---------------------------------------------------------------------------------------------
+// I/O faults: write(2) fails or comes up short (disk full, quota).  The helper limits its own
+// file size (RLIMIT_FSIZE = k, SIGXFSZ ignored), so the write of every file is cut at k bytes.
+// S: whatever the faulted start reports, the NEXT plain start (no limit) presents the persisted
+// identity.  C: the traced calls equal the model's `startLim k` / `writeFileLim k`.
+
+func (c *checker) faultBase(seed uint64) (string, map[string][]byte, presented, bool) {
+	dir := c.mkdir()
+	r1, _, e1 := runHelper(request{Cmd: "server", Dir: dir, Seed: seed | 1}, false, c.scratch)
+	r2, _, e2 := runHelper(request{Cmd: "server", Dir: dir, Args: map[string]string{"iat-mode": "1"}}, false, c.scratch)
+	if e1 != nil || e2 != nil || !r1.OK || !r2.OK {
+		c.r.Violate("helper-failed", "correspondence", fmt.Sprintf("fault base: %v %v %s %s", e1, e2, r1.Err, r2.Err), replayCase{Type: "build"})
+		return dir, nil, presented{}, false
+	}
+	return dir, readDir(dir), presented{r2.Cert, r2.IAT}, true
+}
+
+func (c *checker) faultCase(rc replayCase) {
+	k := rc.Limit
+	switch rc.Fault {
+	case "restart", "first":
+		var before map[string][]byte
+		var cur *presented
+		dir := c.mkdir()
+		defer os.RemoveAll(dir)
+		if rc.Fault == "restart" {
+			bdir, files, p, ok := c.faultBase(rc.Seed)
+			defer os.RemoveAll(bdir)
+			if !ok {
+				return
+			}
+			before, cur = files, &p
+			if err := writeDir(dir, before); err != nil {
+				panic(err)
+			}
+		} else {
+			before = map[string][]byte{}
+		}
+		rep, tr, err := runHelper(request{Cmd: "server", Dir: dir, Args: rc.Args, Seed: rc.Seed*3 + 1, FsizeLimit: &k}, true, c.scratch)
+		if err != nil {
+			c.r.Violate("trace-unavailable", "correspondence", err.Error(), rc)
+			return
+		}
+		after := readDir(dir)
+		probe, _, err := runHelper(request{Cmd: "server", Dir: dir, Seed: rc.Seed*5 + 1}, false, c.scratch)
+		if err != nil {
+			c.r.Violate("helper-failed", "correspondence", err.Error(), rc)
+			return
+		}
+		faulted := len(tr.Failed) > 0
+		c.r.Case(fmt.Sprintf("fault|%s|%v|%d|%s", rc.Fault, rc.Args, k, canonOps(tr.Ops)), faulted)
+		c.r.Validated(2)
+		c.r.Count("write_fault_"+rc.Fault, map[bool]string{true: "write-failed", false: "limit-not-reached"}[faulted])
+		c.r.Count("write_fault_outcome", map[bool]string{true: "start-ok", false: "start-refused"}[rep.OK])
+		if faulted {
+			c.r.Sample(16, map[string]interface{}{"write_fault": rc.Fault, "limit": k, "args": rc.Args, "failed_call": tr.Failed[0].Text, "faulted_start": implNext(rep), "next_plain_start": implNext(probe)})
+		}
+		// S
+		if cur != nil {
+			want := map[presented]bool{*cur: true}
+			if v, ok := rc.Args["iat-mode"]; ok {
+				want[presented{cur.Cert, v}] = true
+			}
+			what := fmt.Sprintf("a start (args %v) whose file writes fail beyond %d bytes (faulted start: %s)", rc.Args, k, implNext(rep))
+			if len(tr.Failed) > 0 {
+				what += "; failed call: " + tr.Failed[0].Text
+			}
+			switch {
+			case !probe.OK:
+				c.r.Violate("write-fault-loses-identity", "impl-oracle",
+					fmt.Sprintf("%s: the next start without arguments (no fault) fails: %s — the persisted identity cert=%s is lost [state file after the faulted start: %d bytes, before: %d]",
+						what, probe.Err, cur.Cert, len(after[stateFile]), len(before[stateFile])), rc)
+			case probe.Cert != cur.Cert:
+				c.r.Violate("write-fault-replaces-identity", "impl-oracle",
+					fmt.Sprintf("%s: the next start presents cert=%s, persisted was cert=%s", what, probe.Cert, cur.Cert), rc)
+			case !want[presented{probe.Cert, probe.IAT}]:
+				c.r.Violate("write-fault-changes-iat-mode", "impl-oracle",
+					fmt.Sprintf("%s: the next start presents iat-mode=%s, persisted was %s", what, probe.IAT, cur.IAT), rc)
+			case rep.OK && rc.Args["iat-mode"] != "" && probe.IAT != rc.Args["iat-mode"]:
+				c.r.Violate("iat-mode-not-kept", "impl-oracle",
+					fmt.Sprintf("%s reported success with iat-mode=%s but the next start presents %s", what, rc.Args["iat-mode"], probe.IAT), rc)
+			}
+		} else if rep.OK && (!probe.OK || probe.Cert != rep.Cert) {
+			c.r.Violate("presented-identity-not-persisted", "impl-oracle",
+				fmt.Sprintf("first start with file writes failing beyond %d bytes reports success (cert=%s) but the next start gives %s", k, rep.Cert, implNext(probe)), rc)
+		}
+		// C
+		privs := []string{}
+		fresh := stateRec{}
+		if r := completeRec(before[stateFile]); r != nil {
+			privs = append(privs, r.Priv)
+		}
+		if _, had := before[stateFile]; !had {
+			// the identity the helper generated: from the file, or from the buffer of the failed write
+			var buf []byte = after[stateFile]
+			if buf == nil {
+				// the first write(2) on the temp file was given the whole record (short write),
+				// or failed outright (limit 0)
+				for _, o := range tr.Ops {
+					if o.Kind == "W" && strings.HasPrefix(o.Name, stateFile) && buf == nil {
+						buf = o.Full
+					}
+				}
+				for _, f := range tr.Failed {
+					if strings.HasPrefix(f.Name, stateFile) && buf == nil {
+						buf = f.Full
+					}
+				}
+			}
+			if r := completeRec(buf); r != nil {
+				fresh = *r
+				privs = append(privs, r.Priv)
+			}
+		}
+		c.loadModel(before, privs, tr.Ops)
+		m := c.call("fs.startlim %d %s %s %s %s %s %s %s %s", k, optHex(rc.Args, "node-id"), optHex(rc.Args, "private-key"),
+			optHex(rc.Args, "drbg-seed"), optHex(rc.Args, "iat-mode"),
+			vlib.Hex([]byte(fresh.NodeID)), vlib.Hex([]byte(fresh.Priv)), vlib.Hex([]byte(fresh.Pub)), vlib.Hex([]byte(fresh.Seed)))
+		mp := strings.SplitN(m, " ; ", 2)
+		mops := ""
+		if len(mp) == 2 {
+			mops = strings.TrimSpace(mp[1])
+		}
+		if mp[0] != implNext(rep) || mops != canonOps(tr.Ops) {
+			c.r.Violate("faulted-start-differs-from-model", "correspondence",
+				fmt.Sprintf("%s start, writes limited to %d bytes, args %v: implementation %s [%s], model %s [%s]", rc.Fault, k, rc.Args, implNext(rep), shortOps(canonOps(tr.Ops)), mp[0], shortOps(mops)), rc)
+		}
+		if fin := c.call("fs.final"); fin != dirText(after) {
+			c.r.Violate("fs-model-final-state-differs", "correspondence",
+				fmt.Sprintf("faulted start (limit %d): directory {%s}, file-system model {%s}", k, shortOps(dirText(after)), shortOps(fin)), rc)
+		}
+	case "tickets":
+		dir := c.mkdir()
+		defer os.RemoveAll(dir)
+		rng := vlib.NewRng(rc.Seed)
+		rep, _, err := runHelper(request{Cmd: "tickets", Dir: dir, Ops: []ticketOp{{Op: "store", Addr: "192.0.2.1:443", Raw: hexOf(rng, 144)}, {Op: "store", Addr: "198.51.100.7:9001", Raw: hexOf(rng, 144)}}}, false, c.scratch)
+		if err != nil || !rep.OK {
+			c.r.Violate("helper-failed", "correspondence", fmt.Sprintf("ticket base: %v %s", err, rep.Err), rc)
+			return
+		}
+		before := readDir(dir)
+		op := ticketOp{Op: "store", Addr: "203.0.113.5:1", Raw: hexOf(rng, 144)}
+		if rc.Args["op"] == "get" {
+			op = ticketOp{Op: "get", Addr: "192.0.2.1:443"}
+		}
+		rep, tr, err := runHelper(request{Cmd: "tickets", Dir: dir, Ops: []ticketOp{op}, FsizeLimit: &k}, true, c.scratch)
+		if err != nil {
+			c.r.Violate("trace-unavailable", "correspondence", err.Error(), rc)
+			return
+		}
+		after := readDir(dir)
+		probe, _, err := runHelper(request{Cmd: "tickets", Dir: dir}, false, c.scratch)
+		if err != nil {
+			c.r.Violate("helper-failed", "correspondence", err.Error(), rc)
+			return
+		}
+		faulted := len(tr.Failed) > 0
+		c.r.Case(fmt.Sprintf("fault|tickets|%s|%d|%s", op.Op, k, canonOps(tr.Ops)), faulted)
+		c.r.Validated(2)
+		c.r.Count("write_fault_tickets", map[bool]string{true: "write-failed", false: "limit-not-reached"}[faulted])
+		if !probe.OK {
+			c.r.Violate("ticket-store-blocks-startup", "impl-oracle",
+				fmt.Sprintf("ticket checkpoint (%s) whose write fails beyond %d bytes: the ScrambleSuit ClientFactory then fails: %s", op.Op, k, probe.Err), rc)
+		}
+		// C: the attempted content is the buffer the first write(2) was given
+		var content []byte
+		for _, o := range tr.Ops {
+			if o.Kind == "W" && content == nil {
+				content = o.Full
+			}
+		}
+		if content == nil && len(tr.Failed) > 0 {
+			content = tr.Failed[0].Full
+		}
+		m := c.call("fs.writelim %d %s %s", k, hexName(ticketFile), vlib.Hex(content))
+		mp := strings.SplitN(m, " ; ", 2)
+		mops := ""
+		if len(mp) == 2 {
+			mops = strings.TrimSpace(mp[1])
+		}
+		if mops != canonOps(tr.Ops) {
+			c.r.Violate("faulted-checkpoint-differs-from-model", "correspondence",
+				fmt.Sprintf("ticket checkpoint, writes limited to %d bytes: traced [%s], model [%s]", k, shortOps(canonOps(tr.Ops)), shortOps(mops)), rc)
+		}
+		c.loadModel(before, nil, tr.Ops)
+		if fin := c.call("fs.final"); fin != dirText(after) {
+			c.r.Violate("fs-model-final-state-differs", "correspondence",
+				fmt.Sprintf("faulted ticket checkpoint (limit %d): directory {%s}, file-system model {%s}", k, shortOps(dirText(after)), shortOps(fin)), rc)
+		}
+		if cp, ok := c.crashPointFromModel(len(tr.Ops), 0); ok && probe.OK {
+			if impl := "ok " + addrsText(probe.Addrs[0]); impl != cp.tickets {
+				c.r.Violate("ticket-recovery-differs-from-model", "correspondence",
+					fmt.Sprintf("after a ticket checkpoint limited to %d bytes: model load %s, implementation %s", k, cp.tickets, impl), rc)
+			}
+		}
+		if faulted && mp[0] == "err" && !bytes.Equal(after[ticketFile], before[ticketFile]) {
+			c.r.Violate("write-fault-damages-ticket-file", "correspondence",
+				fmt.Sprintf("ticket checkpoint whose write failed at %d bytes changed %s (%d → %d bytes)", k, ticketFile, len(before[ticketFile]), len(after[ticketFile])), rc)
+		}
+	}
+}
+
+func faultLimits(maxLen int, marks []int, all bool, rng *vlib.Rng) []uint64 {
+	set := map[int]bool{}
+	if all {
+		for k := 0; k <= maxLen+1; k++ {
+			set[k] = true
+		}
+	} else {
+		for _, k := range []int{0, 1, 2, 3, 17, 64, 100, 200, maxLen / 2, maxLen - 2, maxLen - 1, maxLen, maxLen + 1} {
+			set[k] = true
+		}
+		for _, m := range marks {
+			for d := -2; d <= 1; d++ {
+				set[m+d] = true
+			}
+		}
+		for i := 0; i < 8; i++ {
+			set[rng.Range(0, maxLen)] = true
+		}
+	}
+	ks := []int{}
+	for k := range set {
+		if k >= 0 {
+			ks = append(ks, k)
+		}
+	}
+	sort.Ints(ks)
+	out := make([]uint64, len(ks))
+	for i, k := range ks {
+		out[i] = uint64(k)
+	}
+	return out
+}
+
+func (c *checker) faultFamily(rng *vlib.Rng) {
+	seed := rng.U64()>>1 | 1
+	bdir, files, _, ok := c.faultBase(seed)
+	os.RemoveAll(bdir)
+	if !ok {
+		return
+	}
+	ls, lb := len(files[stateFile]), len(files[bridgeFile])
+	// thorough: every limit 0..len+1 for the plain restart, the first start and the ticket store;
+	// the dense sample for the other variants
+	for ai, args := range []map[string]string{nil, {"iat-mode": "2"}, {"iat-mode": "0"}} {
+		for _, k := range faultLimits(lb, []int{ls}, c.allTorn && ai == 0, rng) {
+			c.faultCase(replayCase{Type: "fault", Fault: "restart", Args: args, Limit: k, Seed: seed})
+		}
+	}
+	for _, k := range faultLimits(lb, []int{ls}, c.allTorn, rng) {
+		c.faultCase(replayCase{Type: "fault", Fault: "first", Limit: k, Seed: seed})
+	}
+	for _, op := range []string{"store", "get"} {
+		for _, k := range faultLimits(900, []int{290, 580}, c.allTorn && op == "store", rng) {
+			c.faultCase(replayCase{Type: "fault", Fault: "tickets", Args: map[string]string{"op": op}, Limit: k, Seed: seed})
+		}
+	}
+}
+
+// iatTransitions: every override transition a→b (a, b ∈ {0,1,2}) in one history, each
+// followed by a plain start: the start with the override and every later start present b.
+func iatTransitions(seed uint64) scenario {
+	sc := scenario{Kind: "server", Steps: []step{{Seed: seed | 1}}}
+	for _, b := range []string{"0", "1", "1", "2", "2", "0", "2", "1", "0"} { // 0→0 0→1 1→1 1→2 2→2 2→0 0→2 2→1 1→0
+		sc.Steps = append(sc.Steps, step{Args: map[string]string{"iat-mode": b}}, step{})
+	}
+	return sc
+}
+
+// ---------------------------------------------------------------------------------------------
 // generators
 
 func hexOf(rng *vlib.Rng, n int) string { return hex.EncodeToString(rng.Bytes(n)) }
@@ -1264,6 +1526,8 @@ func (c *checker) runCase(rc replayCase, rng *vlib.Rng) {
 		} else {
 			c.serverScenario(*rc.Scenario, only, rng)
 		}
+	case "fault":
+		c.faultCase(rc)
 	case "roundtrip":
 		c.roundTrip(rc)
 	case "malformed":
@@ -1278,10 +1542,11 @@ func (c *checker) runCase(rc replayCase, rng *vlib.Rng) {
 
 func main() {
 	r := vlib.NewRun("C18")
-	r.Rule = "case = one start (state directory + arguments → traced file-system calls, outcome), one crash state (directory after a prefix of the traced calls, the write in flight torn at a byte) with the start-up run on it, one bridge-line round trip, or one prefix of a persisted file; non-trivial = a restart (not the first start) / a crash strictly inside the call sequence / a real identity round trip / a strict non-empty prefix; distinct by directory contents + arguments + calls"
+	r.Rule = "case = one start (state directory + arguments → traced file-system calls, outcome), one crash state (directory after a prefix of the traced calls, the write in flight torn at a byte) with the start-up run on it, one bridge-line round trip, one prefix of a persisted file, one refused start followed by a plain start, or one start / ticket checkpoint whose writes fail beyond k bytes (RLIMIT_FSIZE) followed by a plain start; non-trivial = a restart (not the first start) / a crash strictly inside the call sequence / a real identity round trip / a strict non-empty prefix; distinct by directory contents + arguments + calls"
 	r.Assumptions = []string{
 		"process-kill crash model: every completed system call is durable (page cache survives), rename(2) is atomic, a write may be torn at any byte; power-loss reordering is not claimed",
 		"encoding/json as modelled: the tie checks on every prefix that a strict prefix of the persisted object never loads and the whole object does",
+		"I/O faults: only failing/short write(2) (RLIMIT_FSIZE in the helper, SIGXFSZ ignored); failing open/fsync/close/rename are not injected",
 		"Curve25519 public-key derivation is outside the model (the key table is supplied by the harness from common/ntor)",
 	}
 	d := r.Driver("statefs")
@@ -1305,6 +1570,20 @@ func main() {
 		finish()
 	}
 	rng := vlib.NewRng(r.Seed)
+	{
+		// the comment block above the bridge line is a parameter of the model: read it from a
+		// bridge-line file the code under test writes
+		dir := c.mkdir()
+		rep, _, err := runHelper(request{Cmd: "server", Dir: dir, Seed: 99}, false, scratch)
+		b := readDir(dir)[bridgeFile]
+		os.RemoveAll(dir)
+		i := bytes.LastIndex(b, []byte("Bridge obfs4"))
+		if err != nil || !rep.OK || i < 0 {
+			r.Violate("helper-failed", "correspondence", fmt.Sprintf("cannot obtain a bridge-line file: %v %s", err, rep.Err), replayCase{Type: "build"})
+			finish()
+		}
+		c.bridgePrefix = b[:i]
+	}
 
 	if r.ReplayIn != "" {
 		var rc replayCase
@@ -1341,6 +1620,23 @@ func main() {
 		{Args: map[string]string{"iat-mode": "1"}},
 		{},
 		{Args: map[string]string{"iat-mode": "2"}},
+	}}
+	saveTorn := c.allTorn
+	c.allTorn = true
+	c.serverScenario(mainSc, nil, rng.Fork())
+	tmain := scenario{Kind: "tickets", Steps: []step{
+		{TOps: []ticketOp{{Op: "store", Addr: "192.0.2.1:443", Raw: hexOf(rng, 144)}, {Op: "store", Addr: "[2001:db8::1]:80", Raw: hexOf(rng, 144)}}},
+		{TOps: []ticketOp{{Op: "get", Addr: "192.0.2.1:443"}, {Op: "get", Addr: "203.0.113.5:1"}}},
+		{TOps: []ticketOp{{Op: "get", Addr: "[2001:db8::1]:80"}}},
+	}}
+	c.ticketScenario(tmain, nil, rng.Fork())
+	c.allTorn = saveTorn
+
+	// 1b. all nine IAT override transitions, each followed by a plain start; then refused starts
+	c.serverScenario(iatTransitions(r.Seed*2+3), nil, rng.Fork())
+	refusedSc := scenario{Kind: "server", Steps: []step{
+		{Seed: r.Seed*2 + 5},
+		{Args: map[string]string{"iat-mode": "2"}},
 		// refused starts (invalid / garbage / partial arguments), each followed by a plain start
 		{Args: map[string]string{"iat-mode": "3"}},
 		{},
@@ -1358,17 +1654,11 @@ func main() {
 		// an over-long drbg-seed is accepted (truncated to 24 bytes): explicit identity, then plain
 		{Args: map[string]string{"node-id": strings.Repeat("AB", 20), "private-key": strings.Repeat("cd", 32), "drbg-seed": strings.Repeat("ef", 26)}},
 		{},
-	}}
-	saveTorn := c.allTorn
-	c.allTorn = true
-	c.serverScenario(mainSc, nil, rng.Fork())
-	tmain := scenario{Kind: "tickets", Steps: []step{
-		{TOps: []ticketOp{{Op: "store", Addr: "192.0.2.1:443", Raw: hexOf(rng, 144)}, {Op: "store", Addr: "[2001:db8::1]:80", Raw: hexOf(rng, 144)}}},
-		{TOps: []ticketOp{{Op: "get", Addr: "192.0.2.1:443"}, {Op: "get", Addr: "203.0.113.5:1"}}},
-		{TOps: []ticketOp{{Op: "get", Addr: "[2001:db8::1]:80"}}},
-	}}
-	c.ticketScenario(tmain, nil, rng.Fork())
-	c.allTorn = saveTorn
+		}}
+	c.serverScenario(refusedSc, nil, rng.Fork())
+
+	// 1c. I/O faults: failing / short writes at a dense sample of offsets
+	c.faultFamily(rng.Fork())
 
 	// 2. every prefix of a persisted state file / ticket file (the JSON assumption)
 	{
